@@ -509,5 +509,62 @@ def gen_render(repo, out):
 SECTIONS.append(gen_render)
 
 
+def _template_parts(node, what, var):
+    """an f-string whose only holes are <var>['differ_insertion'|'differ_deletion'] -> [(kind, text)] with kind 0 literal, 1 insertion, 2 deletion"""
+    if isinstance(node, ast.Constant) and isinstance(node.value, str):
+        return [(0, node.value)]
+    if not isinstance(node, ast.JoinedStr):
+        raise TableError(f'{what}: expected an f-string')
+    parts = []
+    for v in node.values:
+        if isinstance(v, ast.Constant):
+            parts.append((0, v.value))
+        elif (isinstance(v, ast.FormattedValue) and v.conversion == -1 and v.format_spec is None and isinstance(v.value, ast.Subscript)
+              and isinstance(v.value.value, ast.Name) and v.value.value.id == var and isinstance(v.value.slice, ast.Constant)
+              and v.value.slice.value in ('differ_insertion', 'differ_deletion')):
+            parts.append((1 if v.value.slice.value == 'differ_insertion' else 2, ''))
+        else:
+            raise TableError(f'{what}: unexpected hole in the style template')
+    return parts
+
+
+def gen_chrome(repo, out):
+    """style templates, palette defaults and the contrast script (C10, C14)"""
+    def emit_template(name, parts):
+        out.append('Definition %s : list (N * list N) :=\n  [%s].' % (name, ';\n   '.join('(%d, %s)' % (k, cstr(t)) for k, t in parts)))
+    rel = 'web_monitoring_diff/html_links_diff.py'
+    f = _find_func(_read(repo, rel), 'links_diff_html', rel)
+    tmpl = None
+    for n in ast.walk(f):
+        if (isinstance(n, ast.Assign) and len(n.targets) == 1 and isinstance(n.targets[0], ast.Attribute) and n.targets[0].attr == 'string'
+                and isinstance(n.targets[0].value, ast.Name) and n.targets[0].value.id == 'change_styles'):
+            tmpl = n.value
+    if tmpl is None:
+        raise TableError('links_diff_html: change_styles.string assignment not found')
+    emit_template('links_css_template', _template_parts(tmpl, 'links_diff_html style', 'color_palette'))
+    rel = 'web_monitoring_diff/html_render_diff.py'
+    tree = _read(repo, rel)
+    f = _find_func(tree, 'get_diff_styles', rel)
+    rets = [n for n in ast.walk(f) if isinstance(n, ast.Return)]
+    if len(rets) != 1:
+        raise TableError('get_diff_styles: expected one return')
+    emit_template('render_css_template', _template_parts(rets[0].value, 'get_diff_styles', 'colors'))
+    out.append('Definition update_contrast_script : list N := %s.' % cstr(_const_str(_last(_module_assigns(tree), 'UPDATE_CONTRAST_SCRIPT', rel), 'UPDATE_CONTRAST_SCRIPT')))
+    rel = 'web_monitoring_diff/utils.py'
+    f = _find_func(_read(repo, rel), 'get_color_palette', rel)
+    env = {}
+    for n in ast.walk(f):
+        if (isinstance(n, ast.Assign) and isinstance(n.value, ast.Call) and isinstance(n.value.func, ast.Attribute) and n.value.func.attr == 'get'
+                and len(n.value.args) == 2 and all(isinstance(a, ast.Constant) for a in n.value.args)):
+            env[n.targets[0].id] = (n.value.args[0].value, n.value.args[1].value)
+    if set(env) != {'differ_insertion', 'differ_deletion'}:
+        raise TableError('get_color_palette: expected the two os.environ.get(...) assignments')
+    out.append('Definition palette_env : list (list N * (list N * list N)) :=\n  [%s].' % ';\n   '.join(
+        '(%s, (%s, %s))' % (cstr(k), cstr(env[k][0]), cstr(env[k][1])) for k in ('differ_insertion', 'differ_deletion')))
+
+
+SECTIONS.append(gen_chrome)
+
+
 if __name__ == '__main__':
     sys.exit(main(sys.argv))
